@@ -25,6 +25,7 @@ type Env struct {
 	rng    *iterKey
 	oldTop T // allocation frontier of the old state (for fresh())
 	at     string
+	loopPre *State // state at loop entry (before havoc), for loopold()/loopfresh()
 }
 
 func (e *Env) with(st *State) *Env {
@@ -691,6 +692,22 @@ func (e *Env) builtin(name string, x *ast.CallExpr) (Val, bool) {
 			e.fail("fresh() not available here")
 		}
 		return boolVal(gt(v.L[0], e.oldTop)), true
+	case "loopold":
+		if e.loopPre == nil {
+			e.fail("loopold() outside a loop invariant")
+		}
+		n := *e
+		n.st = e.loopPre
+		return n.eval(arg(0)), true
+	case "loopfresh":
+		if e.loopPre == nil {
+			e.fail("loopfresh() outside a loop invariant")
+		}
+		v := e.eval(arg(0))
+		return boolVal(gt(v.L[0], e.loopPre.top)), true
+	case "sameBacking":
+		a, b := e.eval(arg(0)), e.eval(arg(1))
+		return boolVal(eq(a.L[0], b.L[0])), true
 	case "allocated":
 		v := e.eval(arg(0))
 		return boolVal(and(gt(v.L[0], "0"), le(v.L[0], e.st.top))), true
